@@ -514,8 +514,8 @@ func genC18J2T(r *rng, n int) []c18Item {
 		g.allowReq = true
 		g.maxDepth = 2 + r.intn(3)
 		g.keyKinds = []thrift.Type{thrift.STRING, thrift.STRING, thrift.I08, thrift.I16, thrift.I32, thrift.I64, thrift.STRING, thrift.I32, thrift.I64, thrift.STRING}
-		if r.chance(8) {
-			g.keyKinds = append(g.keyKinds, thrift.DOUBLE)
+		if r.chance(35) { // map<double,V>
+			g.keyKinds = append(g.keyKinds, thrift.DOUBLE, thrift.DOUBLE)
 		}
 		root := g.genStruct(0)
 		// IDL defaults on some scalar fields
